@@ -29,13 +29,65 @@ def nontrivial(case, impl, model, oracle):
 
 
 CHECK, MANIFEST = srvgen.make_check(
-    "C01", "Props/C01.v", ["c01_no_panic_partial"],
+    "C01", "Props/C01.v", ["c01_no_panic", "c01_composed_dispatch_same", "c01_no_panic_partial"],
     srvgen.oracle_c01, gen, nontrivial, srvgen.std_classify,
-    ("PARTIAL. Coq theorem (no axioms): the model of handle_message — Reader, compressed-name parsing, OPT/TSIG RDATA validation, "
-     "the complete pre-scan with the Writer's size arithmetic for the question and the EDNS/TSIG reservations, opcode/QTYPE/"
-     "catalog dispatch — returns a response or none, never a panic, for every octet string, both transports, every EDNS size >= "
-     "512, every catalog and key set. The four panics/defects of the pinned tree on this path were repaired by fix: commits and "
-     "are kept as refuted witnesses. NOT covered by the theorem: panics inside query answering for a loaded zone and inside the "
-     "Writer's serialisation (parameters of the model; C05/C06/C12) — those are only exercised by the correspondence run, which "
-     "feeds mutated, truncated and random requests to the real server and requires a non-panicking outcome on every one."),
-    "machine-checked proof in Coq (totality of the modelled request path) + correspondence/no-panic run on the real server")
+    ("Coq theorem c01_no_panic (no axioms): the COMPOSED model of Server::handle_message (Model/ServerW.v) returns a response or "
+     "none, never a panic, for every octet string, both transports, every EDNS size in [512, 65535], every key set and every catalog "
+     "whose Loaded entries are zones built by Zone::new + Zone::add over arbitrary record lists (RDATA <= 65535 octets, 16-bit "
+     "types: what the Rust types enforce). Covered: the Reader, compressed-name parsing, OPT/TSIG RDATA validation, the complete "
+     "pre-scan with the Writer's size arithmetic, the opcode/QTYPE/catalog dispatch (first wave, c01_no_panic_partial), and now "
+     "the serialisation of EVERY response that does not carry a TSIG (header, echoed question, EDNS, extended RCODE, finish) and, "
+     "for a clean QUERY without TSIG — answered from a Loaded zone, or with NOTIMP/REFUSED/SERVFAIL — ALL of the response side at the octet level: every zone lookup of the tree model (C06), "
+     "every RDATA name parse, the CNAME chase with PreviousOwners, referrals and glue, additional-section processing, the error "
+     "mapping, and every Writer operation issued (add_*_rr / add_*_rrset with Hint::Qname / MostRecentOwner / "
+     "MostRecentNameInRdata / hint-pointer-vector slots, clear_rrs, set_aa/rcode/tc, rollbacks) up to and including finish — by "
+     "the key lemma (Proofs/ComposeKeyP.v) that query.rs only issues operations with well-formed arguments that obey the Writer's "
+     "hint contract, so that C12's c12_ops_never_panic applies to each. STILL PARAMETERS (universally quantified, not covered): "
+     "HMAC verification (its totality on the TSIG model is C11's c11_verify_total) and query answering for a request whose TSIG "
+     "verified; any response carrying a TSIG stays the abstract one of the first wave (the Writer model has no signing TSIG mode). Not modelled "
+     "at all: AXFR (NOTIMP in this version), the socket loops and thread pool (C27-C30), zone-file loading (C15-C19, C31). The "
+     "four panics/defects of the pinned tree on this path were repaired by fix: commits and are kept as refuted witnesses. The "
+     "correspondence run feeds mutated, truncated and random requests to the real server and requires a non-panicking outcome "
+     "equal to the model's on every one."),
+    "machine-checked proof in Coq (totality of the composed request + octet-level response model) + correspondence/no-panic run on the real server")
+
+# C01 is no longer only the request side: say what the composed theorem trusts and assumes
+MANIFEST["level_note"] = (
+    "Trusted: Coq kernel; extraction; fidelity of the hand-written models (server request side, query answering, zone tree, "
+    "Writer — each differentially tested against the real crate on every run, the composed octets by the shared server runner). "
+    "Parameters of c01_no_panic: HMAC verification, and query answering for requests whose TSIG verified.")
+CHECK["assumptions"] = CHECK["assumptions"] + [
+    "every Loaded catalog entry is a zone built by Zone::new + Zone::add (any record list: RDATA <= 65535 octets < 256, 16-bit "
+    "types; the apex a valid Name of the entry's class; Rdata::equals transitive)"]
+
+
+# ---- second suite: the extracted COMPOSED model (Model/ServerW.v handle_message_w — the very function c01_no_panic and
+# c02_wellformed are about) against the real server, raw octets included wherever the model produces octets
+def _raw(line):
+    for tok in line.split():
+        if tok.startswith("raw="):
+            return tok[4:]
+    return None
+
+
+def corr_eq_w(case, impl, model):
+    if not srvgen.resp_equal(impl, model):
+        return False
+    rm = _raw(model)
+    return rm is None or rm == _raw(impl)
+
+
+def gen_w(rng, tier):
+    quick = tier == "quick"
+    for _ in range(5000 if quick else 150000):
+        yield srvgen.gen_case(rng, loaded=True, mutate_p=0.3, clean_p=0.5)
+
+
+def nontrivial_w(case, impl, model, oracle):
+    return _raw(model) is not None          # the composed model answered in octets
+
+
+CHECK["suites"].append(dict(CHECK["suites"][0], name="srvw", extract="Extract/ExSrvW.v", driver="run_srvw.ml",
+                            runner_name="SRVW", gen=gen_w, nontrivial=nontrivial_w, corr_eq=corr_eq_w,
+                            rule=("the extracted composed model handle_message_w itself (no composition in the runner); every response "
+                                  "it produces in octets must equal the real server's octet for octet")))
